@@ -31,5 +31,8 @@ s, st = jft.optimize_kl(lh, pos, key=jax.random.PRNGKey(1), n_total_iterations=N
                         kl_kwargs=dict(minimize_kwargs=dict(name=None, xtol=1e-8, cg_kwargs=dict(name=None), maxiter=5)))
 leaves = [np.asarray(x) for x in jax.tree_util.tree_leaves((s.pos, s._samples, st.key))]
 h = hashlib.sha256(b"".join(l.tobytes() for l in leaves) + str(st.nit).encode()).hexdigest()
+# the rest of the optimisation state: sampling status and the result of the last KL minimisation
+rest = jax.tree_util.tree_leaves((st.sample_state, st.minimization_state))
+h2 = hashlib.sha256(b"".join(np.asarray(l).tobytes() for l in rest) + str(len(rest)).encode()).hexdigest()
 with crashfs._real_open(os.environ["CF_RESULT"], "w") as f:
-    json.dump(dict(hash=h, nit=int(st.nit)), f)
+    json.dump(dict(hash=h + ":" + h2, nit=int(st.nit)), f)
